@@ -17,14 +17,14 @@ import (
 
 // Job is the work order for one worker process (env VERIF_JOB = path to JSON).
 type Job struct {
-	Check   string       `json:"check"`
-	Tier    string       `json:"tier"`
-	Shard   int          `json:"shard"`
-	NShards int          `json:"nshards"`
-	Out     string       `json:"out"`
-	Seed    int64        `json:"seed"`
-	BudgetS int          `json:"budget_s"`
-	Replay  *ReplaySpec  `json:"replay,omitempty"`
+	Check   string            `json:"check"`
+	Tier    string            `json:"tier"`
+	Shard   int               `json:"shard"`
+	NShards int               `json:"nshards"`
+	Out     string            `json:"out"`
+	Seed    int64             `json:"seed"`
+	BudgetS int               `json:"budget_s"`
+	Replay  *ReplaySpec       `json:"replay,omitempty"`
 	Opts    map[string]string `json:"opts,omitempty"`
 }
 
@@ -41,36 +41,36 @@ type ReplaySpec struct {
 
 // Result is what a worker writes.
 type Result struct {
-	Check      string         `json:"check"`
-	Tier       string         `json:"tier"`
-	Shard      int            `json:"shard"`
-	Engine     string         `json:"engine"`
-	S          *SStats        `json:"s,omitempty"`
-	Gen        *GenStats      `json:"gen,omitempty"`
-	WallS      float64        `json:"wall_s"`
-	Bounds     string         `json:"bounds"`
-	Rule       string         `json:"rule"`
-	Assumptions []string      `json:"assumptions,omitempty"`
-	Extra      map[string]any `json:"extra,omitempty"`
+	Check       string         `json:"check"`
+	Tier        string         `json:"tier"`
+	Shard       int            `json:"shard"`
+	Engine      string         `json:"engine"`
+	S           *SStats        `json:"s,omitempty"`
+	Gen         *GenStats      `json:"gen,omitempty"`
+	WallS       float64        `json:"wall_s"`
+	Bounds      string         `json:"bounds"`
+	Rule        string         `json:"rule"`
+	Assumptions []string       `json:"assumptions,omitempty"`
+	Extra       map[string]any `json:"extra,omitempty"`
 }
 
 // GenStats is the result of engines H, E and F.
 type GenStats struct {
-	Evaluations int            `json:"evaluations"`
-	Distinct    int            `json:"distinct_nontrivial"`
-	States      int            `json:"states"`
-	Transitions int            `json:"transitions"`
-	Depth       int            `json:"depth"`
-	Capped      bool           `json:"capped"`
-	CapNote     string         `json:"cap_note,omitempty"`
-	Found       []*Found       `json:"found"`
-	Infra       []string       `json:"infra,omitempty"`
-	Samples     []any          `json:"samples"`
-	Histogram   map[string]int `json:"histogram,omitempty"`
+	Evaluations  int                 `json:"evaluations"`
+	Distinct     int                 `json:"distinct_nontrivial"`
+	States       int                 `json:"states"`
+	Transitions  int                 `json:"transitions"`
+	Depth        int                 `json:"depth"`
+	Capped       bool                `json:"capped"`
+	CapNote      string              `json:"cap_note,omitempty"`
+	Found        []*Found            `json:"found"`
+	Infra        []string            `json:"infra,omitempty"`
+	Samples      []any               `json:"samples"`
+	Histogram    map[string]int      `json:"histogram,omitempty"`
 	DistinctKeys map[string]struct{} `json:"-"`
-	DistinctList []string      `json:"distinct_keys,omitempty"`
+	DistinctList []string            `json:"distinct_keys,omitempty"`
 	StateSet     map[string]struct{} `json:"-"`
-	StateList    []string      `json:"state_keys,omitempty"`
+	StateList    []string            `json:"state_keys,omitempty"`
 }
 
 type checkFunc func(t *testing.T, job *Job, res *Result)
